@@ -108,7 +108,7 @@ func ClassifyErr(call *ssa.Call) ErrUse {
 	tests := NilTests(ev)
 	if len(tests) > 0 {
 		for _, t := range tests {
-			if esc := escapeFromNonNil(t, call.Parent()); esc != nil {
+			if esc := escapeFromNonNil(t, call.Parent(), ev); esc != nil {
 				return ErrUse{Class: ErrSwallow, Detail: "a nil-error return or the end of the function is reachable from the non-nil edge", Escape: esc, Tests: tests}
 			}
 		}
@@ -121,9 +121,10 @@ func ClassifyErr(call *ssa.Call) ErrUse {
 }
 
 // escapeFromNonNil: a return that is not provably an error return, reachable from the non-nil edge of t.
-func escapeFromNonNil(t NilTest, fn *ssa.Function) ssa.Instruction {
+func escapeFromNonNil(t NilTest, fn *ssa.Function, ev ssa.Value) ssa.Instruction {
 	hasErr := ReturnsError(fn.Signature)
-	for b := range ReachableFrom(t.NonNil, nil) {
+	reach := ReachableFrom(t.NonNil, nil)
+	for b := range reach {
 		if len(b.Instrs) == 0 {
 			continue
 		}
@@ -132,7 +133,7 @@ func escapeFromNonNil(t NilTest, fn *ssa.Function) ssa.Instruction {
 			if !hasErr {
 				return ret
 			}
-			if ClassifyReturn(ret) != RetError {
+			if ClassifyReturn(ret) != RetError && !nonNilViaEdge(ret.Results[len(ret.Results)-1], ret, t, ev, reach) {
 				return ret
 			}
 		}
@@ -183,4 +184,45 @@ func IsErrCtor0(com *ssa.CallCommon) bool {
 		return true
 	}
 	return false
+}
+
+// nonNilViaEdge: the error operand e of ret is non-nil on every execution that took the non-nil edge of test t of
+// value ev: at a merge only the ways in that such an execution can use count, and on the tested edge itself the tested
+// value (or a wrapper of it) is non-nil.
+func nonNilViaEdge(e ssa.Value, ret *ssa.Return, t NilTest, ev ssa.Value, reach map[*ssa.BasicBlock]bool) bool {
+	phi, ok := e.(*ssa.Phi)
+	if !ok {
+		return NonNilAtFrom(e, ret, reach)
+	}
+	counted := 0
+	for i, op := range phi.Edges {
+		pred := phi.Block().Preds[i]
+		viaEdge := pred == t.If.Block() && phi.Block() == t.NonNil
+		if !viaEdge && !reach[pred] {
+			continue
+		}
+		counted++
+		if viaEdge {
+			x := op
+			carrier := false
+			for k := 0; k < 4 && x != nil; k++ {
+				if x == ev {
+					carrier = true
+					break
+				}
+				in, isWrap := IsErrWrap(x)
+				if !isWrap {
+					break
+				}
+				x = in
+			}
+			if carrier {
+				continue
+			}
+		}
+		if len(pred.Instrs) == 0 || !NonNilAtFrom(op, pred.Instrs[len(pred.Instrs)-1], reach) {
+			return false
+		}
+	}
+	return counted > 0
 }
